@@ -139,6 +139,10 @@ func ParseResponse(data []byte, req *http.Request) (resp *Response, err error) {
 	if err != nil {
 		return nil, errors.Join(errInvalidResponse, fmt.Errorf("failed to read response: %w", err))
 	}
+	// The serialised form may carry connection-level fields of its own (e.g.
+	// "Connection: close" written for an HTTP/1.0 response); they are not part of
+	// the stored response.
+	removeHopByHopHeaders(r)
 	resp.Data = r
 	return resp, nil
 }
